@@ -708,6 +708,94 @@ impl World {
                 core.lock().hold_user = st["on"].as_bool().unwrap_or(true);
                 core.log(json!({"ev": "Hold", "on": st["on"]}));
             }
+            "inject" => {
+                // adversarial datagrams (Adversary.tla) delivered to participant `to`
+                let to = st["to"].as_u64().unwrap_or(1) as usize;
+                let known = st["known"].as_u64().unwrap_or(0) as usize;
+                let h12 = |h: dust_dds::infrastructure::instance::InstanceHandle| { let b: [u8; 16] = h.into(); let mut p = [0u8; 12]; p.copy_from_slice(&b[..12]); p };
+                let e4 = |h: dust_dds::infrastructure::instance::InstanceHandle| { let b: [u8; 16] = h.into(); [b[12], b[13], b[14], b[15]] };
+                let pw = st["peer_writer"].as_u64().unwrap_or(0) as usize;
+                let vr = st["victim_reader"].as_u64().unwrap_or(0) as usize;
+                let vw = st["victim_writer"].as_u64().unwrap_or(1) as usize;
+                let pr = st["peer_reader"].as_u64().unwrap_or(1) as usize;
+                let ctx = crate::adv::AdvCtx {
+                    known_prefix: h12(self.parts[known].p.get_instance_handle()),
+                    victim_prefix: h12(self.parts[to].p.get_instance_handle()),
+                    peer_writer: e4(self.writers[pw].as_ref().unwrap().w.get_instance_handle()),
+                    peer_reader: e4(self.readers[pr].as_ref().unwrap().r.get_instance_handle()),
+                    victim_reader: e4(self.readers[vr].as_ref().unwrap().r.get_instance_handle()),
+                    victim_writer: e4(self.writers[vw].as_ref().unwrap().w.get_instance_handle()),
+                    next_sn: self.writers[pw].as_ref().unwrap().next_seq as i64,
+                };
+                let net = self.parts[to].index;
+                for m in st["msgs"].as_array().cloned().unwrap_or_default() {
+                    let bytes = crate::adv::build(&m, &ctx);
+                    let len = bytes.len();
+                    core.log(json!({"ev": "Inject", "id": m["id"], "len": len, "msg": m}));
+                    crate::alloc_reset_peak();
+                    let base = crate::alloc_current();
+                    let t0 = std::time::Instant::now();
+                    core.inject(net, bytes);
+                    self.sleep_ms(2).await;
+                    let peak = crate::alloc_peak().saturating_sub(base);
+                    core.log(json!({"ev": "Injected", "id": m["id"], "len": len, "peak": peak, "wall_us": t0.elapsed().as_micros() as u64}));
+                }
+            }
+            "probe" => {
+                // a fresh, well behaved participant must be able to communicate with participant `victim` in both directions
+                let victim = st["victim"].as_u64().unwrap_or(1) as usize;
+                let vr = st["victim_reader"].as_u64().unwrap_or(0) as usize;
+                let vw = st["victim_writer"].as_u64().unwrap_or(1) as usize;
+                let tag = st["tag"].as_u64().unwrap_or(200) as u8;
+                let budget_ms = st["ms"].as_i64().unwrap_or(6000);
+                let k = self.add_participant().await;
+                let w = self.parts[k].publisher.create_datawriter::<KeyedData>(&self.parts[k].topic, QosKind::Specific(writer_qos(&json!({"rel": "RELIABLE", "hist": 0}))), NO_LISTENER, NO_STATUS).await;
+                let r = self.parts[k].subscriber.create_datareader::<KeyedData>(&self.parts[k].topic, QosKind::Specific(reader_qos(&json!({"rel": "RELIABLE", "hist": 0}))), NO_LISTENER, NO_STATUS).await;
+                let mut why = String::new();
+                let mut ok = false;
+                if let (Ok(w), Ok(r)) = (w, r) {
+                    let wh = w.get_instance_handle();
+                    let rh = r.get_instance_handle();
+                    let vreader = self.readers[vr].as_ref().unwrap().r.clone();
+                    let vwriter = self.writers[vw].as_ref().unwrap().w.clone();
+                    // 1. the victim answers API calls
+                    let api = vreader.get_qos().await.is_ok() && self.parts[victim].p.get_discovered_participants().await.is_ok();
+                    // 2. discovery in both directions
+                    let mut waited = 0;
+                    let mut matched = false;
+                    while waited < budget_ms {
+                        let a = vreader.get_matched_publications().await.map(|v| v.contains(&wh)).unwrap_or(false);
+                        let b = vwriter.get_matched_subscriptions().await.map(|v| v.contains(&rh)).unwrap_or(false);
+                        if a && b { matched = true; break; }
+                        self.sleep_ms(100).await;
+                        waited += 100;
+                    }
+                    // 3. a sample in each direction
+                    let mut got_in = false;
+                    let mut got_out = false;
+                    if matched {
+                        let _ = w.write(KeyedData { id: 7, w: tag, seq: 1, data: payload(tag, 1, 16) }, None).await;
+                        let _ = sim::with_timeout(&core, 2_000_000_000, vwriter.write(KeyedData { id: 8, w: tag, seq: 2, data: payload(tag, 2, 16) }, None)).await;
+                        let mut waited = 0;
+                        while waited < budget_ms && !(got_in && got_out) {
+                            if let Ok(l) = vreader.read(i32::MAX, ANY_SAMPLE_STATE, ANY_VIEW_STATE, ANY_INSTANCE_STATE).await {
+                                got_in = got_in || l.iter().filter_map(|s| s.data.as_ref()).any(|d| d.w == tag && d.seq == 1);
+                            }
+                            if let Ok(l) = r.take(i32::MAX, ANY_SAMPLE_STATE, ANY_VIEW_STATE, ANY_INSTANCE_STATE).await {
+                                got_out = got_out || l.iter().filter_map(|s| s.data.as_ref()).any(|d| d.w == tag && d.seq == 2);
+                            }
+                            if !(got_in && got_out) { self.sleep_ms(100).await; waited += 100; }
+                        }
+                    }
+                    ok = api && matched && got_in && got_out;
+                    why = format!("api={api} matched={matched} victim_received={got_in} victim_sent={got_out}");
+                } else {
+                    why = "probe endpoints could not be created".into();
+                }
+                core.log(json!({"ev": "Probe", "ok": ok, "why": why}));
+                let _ = self.parts[k].p.delete_contained_entities().await;
+                let _ = global().factory.delete_participant(&self.parts[k].p).await;
+            }
             "merge_held" => {
                 let n = core.merge_held_user();
                 core.log(json!({"ev": "MergeHeld", "merged": n}));
